@@ -11,7 +11,8 @@ static void *te_arg[TE_NT + 1];
 static void *te_retval[TE_NT + 1];
 int te_keys_live, te_keys_created, te_keys_deleted, te_threads_unreaped, te_attr_live;
 int te_mutex_live, te_cond_live, te_rwlock_live;
-int te_faults_left, te_faults_taken;
+int te_faults_left, te_faults_taken, te_fault_at, te_fallible_calls;
+int te_create_errno_choice = -1;           /* failing pthread_create: -1 symbolic, 0 EAGAIN, 1 EPERM */
 
 static _Bool te_key_used[TE_NK];
 static void (*te_key_dtor[TE_NK])(void *);
@@ -22,8 +23,18 @@ static int te_attr_detach;                 /* detach state of the (single) live 
 #ifdef TE_START_ROUTINE
 void *TE_START_ROUTINE(void *);
 #endif
+#ifdef TE_DTOR_A
+void TE_DTOR_A(void *);
+#endif
+#ifdef TE_DTOR_B
+void TE_DTOR_B(void *);
+#endif
 
+/* fallible pthread call: fails when its (1-based) index among the fallible calls equals te_fault_at (concrete
+ * choice of the runner), or by a symbolic choice while the budget te_faults_left lasts */
 static int te_fault(void) {
+  te_fallible_calls++;
+  if (te_fault_at != 0 && te_fallible_calls == te_fault_at) { te_faults_taken++; return 1; }
   if (te_faults_left > 0 && ND_BOOL()) { te_faults_left--; te_faults_taken++; return 1; }
   return 0;
 }
@@ -39,7 +50,17 @@ static void te_thread_end(int t) {
       if (te_key_used[k] && te_key_dtor[k] != NULL && te_tls[t][k] != NULL) {
         void *v = te_tls[t][k];
         te_tls[t][k] = NULL;
+#ifdef TE_DTOR_A
+        /* explicit dispatch over the destructors the harness declares (keeps CBMC's function-pointer removal
+         * from trying every address-taken one-argument function); anything else is reported */
+        if (te_key_dtor[k] == TE_DTOR_A) TE_DTOR_A(v);
+#ifdef TE_DTOR_B
+        else if (te_key_dtor[k] == TE_DTOR_B) TE_DTOR_B(v);
+#endif
+        else VASSERT(0, "model: destructor is one of the declared TE_DTOR_A / TE_DTOR_B");
+#else
         te_key_dtor[k](v);
+#endif
       }
   for (int k = 0; k < TE_NK; k++)
     VASSERT(!(te_key_used[k] && te_key_dtor[k] != NULL && te_tls[t][k] != NULL),
@@ -68,8 +89,13 @@ static void te_run(int t) {
   te_depth = saved_depth;
 }
 
-void te_preempt(void) {
+/* model entry without preemption choice (calls whose effect is private to the calling thread) */
+static void te_entry(void) {
   VASSERT(!te_exiting[te_cur], "no code of a thread runs between its pthread_exit and its end");
+}
+
+void te_preempt(void) {
+  te_entry();
   if (te_no_preempt || te_depth >= TE_DEPTH) return;
   for (int t = 1; t <= TE_NT; t++)
     if (te_state[t] == TE_PENDING && ND_BOOL()) { te_preemptions++; te_run(t); }
@@ -85,7 +111,7 @@ int te_pthread_create(pthread_t *thr, const pthread_attr_t *attr, void *(*start)
   int t = 0;
   te_preempt();
   VASSERT(attr == NULL || te_attr_live > 0, "pthread_create with an initialised attribute object");
-  if (te_fault()) return ND_BOOL() ? EAGAIN : EPERM;
+  if (te_fault()) return (te_create_errno_choice < 0 ? ND_BOOL() : te_create_errno_choice) ? EPERM : EAGAIN;
   if (te_next_slot != 0) { t = te_next_slot; te_next_slot = 0; }
   else for (int i = TE_NT; i >= 1; i--) if (te_state[i] == TE_UNUSED) t = i;
   VASSUME(t >= 1 && t <= TE_NT && te_state[t] == TE_UNUSED);   /* bound: at most TE_NT threads */
@@ -180,7 +206,7 @@ void *te_tls_peek(int slot, pthread_key_t key) { return te_key_valid(key) ? te_t
 
 /* ---------------------------------------------------------------- attributes / scheduling */
 int te_pthread_attr_init(pthread_attr_t *a) {
-  (void) a; te_preempt();
+  (void) a; te_entry();
   if (te_fault()) return ENOMEM;
   VASSUME(te_attr_live == 0);                   /* bound: one attribute object at a time */
   te_attr_live++;
@@ -188,13 +214,13 @@ int te_pthread_attr_init(pthread_attr_t *a) {
   return 0;
 }
 int te_pthread_attr_destroy(pthread_attr_t *a) {
-  (void) a; te_preempt();
+  (void) a; te_entry();
   VASSERT(te_attr_live > 0, "pthread_attr_destroy on an initialised attribute object");
   te_attr_live--;
   return 0;
 }
 int te_pthread_attr_setdetachstate(pthread_attr_t *a, int st) {
-  (void) a; te_preempt();
+  (void) a; te_entry();
   VASSERT(te_attr_live > 0, "pthread_attr_* on an initialised attribute object");
   if (st != PTHREAD_CREATE_JOINABLE && st != PTHREAD_CREATE_DETACHED) return EINVAL;
   if (te_fault()) return EINVAL;
@@ -202,7 +228,7 @@ int te_pthread_attr_setdetachstate(pthread_attr_t *a, int st) {
   return 0;
 }
 static int te_attr_misc(void) {
-  te_preempt();
+  te_entry();
   VASSERT(te_attr_live > 0, "pthread_attr_* on an initialised attribute object");
   return te_fault() ? EINVAL : 0;
 }
@@ -216,17 +242,17 @@ int te_pthread_attr_setschedpolicy(pthread_attr_t *a, int pol) { (void) a; (void
 int te_pthread_attr_setschedparam(pthread_attr_t *a, const struct sched_param *p) { (void) a; (void) p; return te_attr_misc(); }
 int te_pthread_attr_setstacksize(pthread_attr_t *a, size_t n) { (void) a; (void) n; return te_attr_misc(); }
 int te_pthread_getschedparam(pthread_t t, int *pol, struct sched_param *p) {
-  te_preempt(); (void) te_slot_of(t);
+  te_entry(); (void) te_slot_of(t);
   if (te_fault()) return ESRCH;
   *pol = ND_RANGE(0, 2); p->sched_priority = ND_RANGE(0, 99);
   return 0;
 }
 int te_pthread_setschedparam(pthread_t t, int pol, const struct sched_param *p) {
-  te_preempt(); (void) te_slot_of(t); (void) pol; (void) p;
+  te_entry(); (void) te_slot_of(t); (void) pol; (void) p;
   return te_fault() ? EPERM : 0;
 }
 int te_pthread_setname_np(pthread_t t, const char *name) {
-  te_preempt(); (void) te_slot_of(t);
+  te_entry(); (void) te_slot_of(t);
   VASSERT(name != NULL, "pthread_setname_np with a name");
   int n = 0; while (n < 16 && name[n] != 0) n++;
   if (n >= 16) return ERANGE;                   /* Linux: name incl. terminator must fit 16 bytes */
@@ -296,10 +322,67 @@ int te_pthread_mutex_unlock(pthread_mutex_t *m) {
   if (k >= 0) te_m_locked[k] = 0;
   return 0;
 }
+/* condition variable / rwlock operations: enough for single-threaded use of freshly built objects (C18/C20
+ * scripts); waiting would block forever in a sequential script */
+int te_pthread_cond_wait(pthread_cond_t *c, pthread_mutex_t *m) {
+  te_preempt(); (void) m;
+  VASSERT(te_find(te_c_addr, c) >= 0, "pthread_cond_wait on an initialised condition variable");
+  VASSUME(0);
+  return 0;
+}
+int te_pthread_cond_signal(pthread_cond_t *c) {
+  te_preempt();
+  VASSERT(te_find(te_c_addr, c) >= 0, "pthread_cond_signal on an initialised condition variable");
+  return 0;
+}
+int te_pthread_cond_broadcast(pthread_cond_t *c) {
+  te_preempt();
+  VASSERT(te_find(te_c_addr, c) >= 0, "pthread_cond_broadcast on an initialised condition variable");
+  return 0;
+}
+static int te_r_readers[TE_NM], te_r_writer[TE_NM];
+int te_pthread_rwlock_rdlock(pthread_rwlock_t *l) {
+  te_preempt(); int k = te_find(te_r_addr, l);
+  VASSERT(k >= 0, "pthread_rwlock_rdlock on an initialised lock");
+  VASSUME(k >= 0 && !te_r_writer[k]);
+  te_r_readers[k]++; return 0;
+}
+int te_pthread_rwlock_wrlock(pthread_rwlock_t *l) {
+  te_preempt(); int k = te_find(te_r_addr, l);
+  VASSERT(k >= 0, "pthread_rwlock_wrlock on an initialised lock");
+  VASSUME(k >= 0 && !te_r_writer[k] && te_r_readers[k] == 0);
+  te_r_writer[k] = 1; return 0;
+}
+int te_pthread_rwlock_tryrdlock(pthread_rwlock_t *l) {
+  te_preempt(); int k = te_find(te_r_addr, l);
+  VASSERT(k >= 0, "pthread_rwlock_tryrdlock on an initialised lock");
+  if (k < 0 || te_r_writer[k]) return EBUSY;
+  te_r_readers[k]++; return 0;
+}
+int te_pthread_rwlock_trywrlock(pthread_rwlock_t *l) {
+  te_preempt(); int k = te_find(te_r_addr, l);
+  VASSERT(k >= 0, "pthread_rwlock_trywrlock on an initialised lock");
+  if (k < 0 || te_r_writer[k] || te_r_readers[k] > 0) return EBUSY;
+  te_r_writer[k] = 1; return 0;
+}
+int te_pthread_rwlock_unlock(pthread_rwlock_t *l) {
+  te_preempt(); int k = te_find(te_r_addr, l);
+  VASSERT(k >= 0 && (te_r_writer[k] || te_r_readers[k] > 0), "pthread_rwlock_unlock on a held lock");
+  if (k >= 0) { if (te_r_writer[k]) te_r_writer[k] = 0; else if (te_r_readers[k] > 0) te_r_readers[k]--; }
+  return 0;
+}
 int te_pthread_cond_init(pthread_cond_t *c, const pthread_condattr_t *a) { (void) a; return te_obj_init(te_c_addr, c, &te_cond_live); }
 int te_pthread_cond_destroy(pthread_cond_t *c) { return te_obj_destroy(te_c_addr, c, &te_cond_live); }
-int te_pthread_rwlock_init(pthread_rwlock_t *l, const pthread_rwlockattr_t *a) { (void) a; return te_obj_init(te_r_addr, l, &te_rwlock_live); }
-int te_pthread_rwlock_destroy(pthread_rwlock_t *l) { return te_obj_destroy(te_r_addr, l, &te_rwlock_live); }
+int te_pthread_rwlock_init(pthread_rwlock_t *l, const pthread_rwlockattr_t *a) {
+  (void) a; int r = te_obj_init(te_r_addr, l, &te_rwlock_live);
+  if (r == 0) { int k = te_find(te_r_addr, l); te_r_readers[k] = 0; te_r_writer[k] = 0; }
+  return r;
+}
+int te_pthread_rwlock_destroy(pthread_rwlock_t *l) {
+  int k = te_find(te_r_addr, l);
+  VASSERT(k < 0 || (!te_r_writer[k] && te_r_readers[k] == 0), "pthread_rwlock_destroy on an unheld lock");
+  return te_obj_destroy(te_r_addr, l, &te_rwlock_live);
+}
 
 /* ---------------------------------------------------------------- spinlock acquisition contract
  * pspinlock-c11.c is compiled for real (new / trylock / unlock / free through thread_atomics.h); only the
